@@ -9,6 +9,7 @@ import (
 	"os/exec"
 	"path/filepath"
 	"strings"
+	"time"
 
 	"github.com/mattn/anko/core"
 	"github.com/mattn/anko/env"
@@ -64,11 +65,20 @@ func streamCli(o *Out, r *rand.Rand, n int, thorough bool) {
 		{"runErr", "sort.Ints([2, 1])"}, {"runErr", "t = time"}, {"runErr", "println(regexp)"}, {"runErr", "func f() {\nreturn json\n}\nf()"},
 		{"ok", "println(defined(\"time\"), defined(\"regexp\"), defined(\"os\"))"}, {"ok", "try {\nj = json\nprintln(\"json is bound\")\n} catch e {\nprintln(\"json is not bound\")\n}"},
 		{"ok", "x = (url ?? \"no url\")\nprintln(x)"},
+		// goroutines the script leaves behind do not keep the tool alive: vm.Execute returns when the top level statements are done
+		{"ok", "c = make(chan int64)\ngo func() {\n<-c\n}()"}, {"ok", "jobs = make(chan int64, 2)\ngo func() {\nfor j in jobs {\n}\n}()\njobs <- 1"},
+		{"ok", "c = make(chan int64)\ngo func() {\nc <- 1\n}()\nprintln(\"main done\")"}, {"runErr", "c = make(chan int64)\ngo func() {\n<-c\n}()\nthrow \"after go\""},
 		{"exit", "os = import(\"os\")\nos.Exit(0)"}, {"exit", "os = import(\"os\")\nos.Exit(3)"},
 		{"parseErr", "x = ("}, {"parseErr", `s = "unterminated`}, {"parseErr", "if { }"}, {"parseErr", "1 +* 2"}, {"parseErr", "func("},
 	}
+	// sources given whole (no trailing newline added), each as -e code and as a file: what runs is the text that was given
+	wholes := []struct{ name, src string }{
+		{"ok", `"a" + "b"`}, {"ok", "'x'"}, {"ok", "\"only a string\""}, {"ok", "`raw`"}, {"ok", "\"%v\\n\"; println(1); \"end\""}, {"ok", "'a'; println('b'); 'c'"},
+		{"ok", "(1 + 2)"}, {"ok", "[1, 2]"}, {"ok", "{\"a\": 1}"}, {"ok", " println(1) "}, {"ok", "\tprintln(2)\t"}, {"ok", "# only a comment"}, {"ok", "println(\"q\")\n\"tail\""},
+		{"runErr", "\"a\" + nosuch + \"b\""}, {"runErr", "'x'; throw 'y'"}, {"parseErr", "\"a\" \"b\""}, {"parseErr", "'"},
+	}
 	deepDone := false
-	for i := 0; i < n; i++ {
+	for i := 0; i < n+2*len(wholes); i++ {
 		var sb strings.Builder
 		var want strings.Builder
 		nargs := r.Intn(3)
@@ -82,6 +92,10 @@ func streamCli(o *Out, r *rand.Rand, n int, thorough bool) {
 		if i < 2 {
 			// always: the deep recursion script, once as a file and once with -e
 			lines, end, supply, deepDone = 1, endings[0], []string{"file1", "dashE"}[i], false
+		}
+		whole := i >= n
+		if whole {
+			lines, end, supply = 0, wholes[(i-n)/2], []string{"dashE", "file1"}[(i-n)%2]
 		}
 		for j := 0; j < lines; j++ {
 			choice := r.Intn(12)
@@ -159,6 +173,9 @@ func streamCli(o *Out, r *rand.Rand, n int, thorough bool) {
 		}
 		sb.WriteString(end.src + "\n")
 		src := sb.String()
+		if whole {
+			src = end.src
+		}
 		class := end.name
 		_, perr := parser.ParseSrc(src)
 		if (perr != nil) != (class == "parseErr") {
@@ -198,7 +215,22 @@ func streamCli(o *Out, r *rand.Rand, n int, thorough bool) {
 		}
 		var stdout, stderr bytes.Buffer
 		cmd.Stdout, cmd.Stderr = &stdout, &stderr
-		runErr := cmd.Run()
+		if err := cmd.Start(); err != nil {
+			o.Fail(Failure{Oracle: "cli-run", Key: "cli-exec-failed", Input: src, Detail: err.Error()})
+			continue
+		}
+		waited := make(chan error, 1)
+		go func() { waited <- cmd.Wait() }()
+		var runErr error
+		select {
+		case runErr = <-waited:
+		case <-time.After(60 * time.Second):
+			_ = cmd.Process.Kill()
+			<-waited
+			o.Fail(Failure{Oracle: "cli-verdict-agrees", Key: "cli-does-not-exit", Input: fmt.Sprintf("[%s args=%v] %q", supply, args, src),
+				Detail: fmt.Sprintf("vm.Execute returned (error=%v) for this source; the binary was still running after 60s (printed %q)", libErr, stdout.String())})
+			continue
+		}
 		exit := 0
 		if ee, ok := runErr.(*exec.ExitError); ok {
 			exit = ee.ExitCode()
